@@ -4992,8 +4992,11 @@ class Path:
                         to = [idx for idx in seg.to if idx <= seg.id]
                         # add the waiting destinations
                         to += seg.await_to
-                        # replace destinations
+                        # replace destinations (in a copy: the segment objects
+                        # are shared with the other paths and with the part)
+                        seg = copy(seg)
                         seg.to = to
+                        new_path.segments[segid] = seg
                     # delete used destinations
                     new_path.used_segment_jumps[segid] = list()
                 # add the jump destination to the used ones
